@@ -700,7 +700,8 @@ def afterSelfDef (s : ES) : ES :=
   { env := envInsert s.env "f" (selfLam s.nextId), nextId := s.nextId + 1,
     names := (s.nextId, "f") :: s.names }
 
-theorem eval_selfDef (ops : NumOps) (fuel depth : Nat) (s : ES) (h : envContains s.env "f" = false) :
+theorem eval_selfDef (ops : NumOps) (fuel depth : Nat) (s : ES) (h : envContains s.env "f" = false)
+    (hfr : nameOf s.names s.nextId = none) :
     eval ops (fuel + 2) depth selfDef s = (.ok (selfLam s.nextId), afterSelfDef s) := by
   have h' : envGet s.env "f" = none := by simpa [envContains] using h
   have hb : isBuiltinIdent "f" = false := by decide
@@ -708,7 +709,7 @@ theorem eval_selfDef (ops : NumOps) (fuel depth : Nat) (s : ES) (h : envContains
   have hv : freeVars ["n"] selfBody = ["f"] := by decide
   have hA := alreadyDefined_of_not_contains depth s.env "f" h
   simp [selfDef, selfLamExpr, eval, hb, hk, hA, hv, captureScope, h', setNameIfLambda, LArg.name,
-    afterSelfDef, selfLam]
+    afterSelfDef, selfLam, hfr, createdSince]
 
 theorem afterSelfDef_f (s : ES) : envGet (afterSelfDef s).env "f" = some (selfLam s.nextId) :=
   envGet_envInsert_self _ _ _
@@ -957,7 +958,8 @@ def afterPairDefs (s : ES) : ES :=
     names := (s.nextId + 1, "h") :: (s.nextId, "g") :: s.names }
 
 theorem eval_pairDefs (ops : NumOps) (fuel1 fuel2 depth : Nat) (s : ES)
-    (hg : envContains s.env "g" = false) (hh : envContains s.env "h" = false) :
+    (hg : envContains s.env "g" = false) (hh : envContains s.env "h" = false)
+    (hfr : nameOf s.names s.nextId = none) (hfr2 : nameOf s.names (s.nextId + 1) = none) :
     (eval ops (fuel1 + 2) depth pairGDef s).1 = .ok (pairG s.nextId) ∧
     eval ops (fuel2 + 2) depth pairHDef (eval ops (fuel1 + 2) depth pairGDef s).2 =
       (.ok (pairH s.nextId (s.nextId + 1)), afterPairDefs s) := by
@@ -975,14 +977,17 @@ theorem eval_pairDefs (ops : NumOps) (fuel1 fuel2 depth : Nat) (s : ES)
           nextId := s.nextId + 1,
           names := (s.nextId, "g") :: s.names }) := by
     have hA := alreadyDefined_of_not_contains depth s.env "g" hg
-    simp [pairGDef, eval, hb, hk, hA, hv, captureScope, hh', setNameIfLambda, LArg.name, pairG]
+    simp [pairGDef, eval, hb, hk, hA, hv, captureScope, hh', setNameIfLambda, LArg.name, pairG, hfr, createdSince]
   rw [e1]
   refine ⟨rfl, ?_⟩
   have hh2 : envContains (envInsert s.env "g" (pairG s.nextId)) "h" = false := by
     simp [envContains, envGet_envInsert_ne _ _ _ _ (show "g" ≠ "h" by decide), hh']
   have hA2 := alreadyDefined_of_not_contains depth _ "h" hh2
+  have hfr2' : nameOf ((s.nextId, "g") :: s.names) (s.nextId + 1) = none := by
+    have hne : (s.nextId == s.nextId + 1) = false := by simp
+    simpa [nameOf, List.find?, hne] using hfr2
   simp [pairHDef, eval, hb2, hk2, hA2, hv2, captureScope, envGet_envInsert_self, hb,
-    setNameIfLambda, LArg.name, pairH, afterPairDefs, insertAL]
+    setNameIfLambda, LArg.name, pairH, afterPairDefs, insertAL, hfr2', createdSince]
 
 theorem afterPairDefs_g (s : ES) : envGet (afterPairDefs s).env "g" = some (pairG s.nextId) := by
   simp only [afterPairDefs]
